@@ -14,7 +14,8 @@ import RbV.Model.Sais
 
 On every case the mirror model of SA-IS (`Model/Sais.lean`: `suffix_array` / `suffix_array_int`, statement by statement)
 is run on the text and compared with the implementation's array: tag `sais-model=impl` or `drift-sais` (a drift is
-never a violation: the acceptance function stays the oracle).
+never a violation: the acceptance function stays the oracle; on a rejected array the same tag is appended to the
+reject reason, so a violation report also says whether the model still agrees with the implementation).
 -/
 namespace RbV.Drv.C03
 open RbV.Codec RbV
@@ -62,7 +63,8 @@ def verdict (toks : List String) (out : String) : String :=
     match parseHex th with
     | some t =>
       match parseNatList out with
-      | some sa => if checkSA t sa then "ok" ++ saTags t sa ++ saisTag (Sais.suffixArray t) sa else "reject not-a-sorted-suffix-permutation"
+      | some sa => if checkSA t sa then "ok" ++ saTags t sa ++ saisTag (Sais.suffixArray t) sa
+        else "reject not-a-sorted-suffix-permutation" ++ saisTag (Sais.suffixArray t) sa
       | none => (failOut out).getD "bad-op output"
     | none => "bad-op parse"
   | ["int", tl] =>
@@ -72,7 +74,7 @@ def verdict (toks : List String) (out : String) : String :=
       | some sa =>
         if checkSorted t sa then "ok" ++ (if lmsCount t ≥ 2 then " nt" else "") ++ " int"
           ++ saisTag (Sais.suffixArrayInt t) sa
-        else "reject not-a-sorted-suffix-permutation"
+        else "reject not-a-sorted-suffix-permutation" ++ saisTag (Sais.suffixArrayInt t) sa
       | none => (failOut out).getD "bad-op output"
     | none => "bad-op parse"
   | ["lcp", th] =>
@@ -82,7 +84,7 @@ def verdict (toks : List String) (out : String) : String :=
       | [a, b, c] =>
         match parseNatList a, parseIntList b, parseList parseOptNat c with
         | some sa, some l, some sus =>
-          if !checkSA t sa then "reject not-a-sorted-suffix-permutation" else
+          if !checkSA t sa then "reject not-a-sorted-suffix-permutation" ++ saisTag (Sais.suffixArray t) sa else
           let le := lcpRef t sa
           if l ≠ le then "diff lcp " ++ showIntList le else
           let se := (List.range t.length).map (susRef t)
@@ -102,7 +104,7 @@ def verdict (toks : List String) (out : String) : String :=
       | [a, b] =>
         match parseNatList a, parseListNE (parseList parseOptNat) b '/' with
         | some sa, some gs =>
-          if !checkSA t sa then "reject not-a-sorted-suffix-permutation" else
+          if !checkSA t sa then "reject not-a-sorted-suffix-permutation" ++ saisTag (Sais.suffixArray t) sa else
           if gs.length ≠ ss.length * ks.length then "bad-op arity" else
           let want := sa.map some
           let combos := ss.flatMap (fun s => ks.map (fun k => (s, k)))
